@@ -43,7 +43,9 @@ var creds = []string{"mapping-id", "right-secret", "wrong-secret", "resume-garba
 // json = hybrid{memory cache, JSON-file persistent tier}: the stand-alone deployment with persistence; the cached
 // copies of the mapping records are evicted after the mapping state is set up, so the decision is taken on
 // what the persistent tier holds
-var backends = []string{"memory", "redis", "json"}
+// two-node = two servers, each hybrid{node-local memory cache, shared Redis}: the server under test has read the
+// mapping record before ANOTHER node changes the mapping's state (revoke / expire / deactivate / delete)
+var backends = []string{"memory", "redis", "json", "two-node"}
 var mstates = []string{"active", "revoked", "expired", "inactive", "missing"}
 
 // "local-route": a routing record that names THIS node as the source while no bridge exists (a record that
@@ -179,6 +181,26 @@ func runCell(c Cell) (outcome, error) {
 		}
 		defer st.Close()
 	}
+	var stAdmin storage.Storage
+	if c.Backend == "two-node" {
+		mr, err := miniredis.Run()
+		if err != nil {
+			return out, err
+		}
+		defer mr.Close()
+		mk := func() (storage.Storage, error) {
+			return storage.NewStorageFactory(context.Background()).CreateStorage(&storage.HybridStorageConfig{CacheType: "memory",
+				SharedCacheConfig: &storage.RedisConfig{Addr: mr.Addr(), PoolSize: 4}, HybridConfig: storage.DefaultHybridConfig()})
+		}
+		if st, err = mk(); err != nil {
+			return out, err
+		}
+		defer st.Close()
+		if stAdmin, err = mk(); err != nil {
+			return out, err
+		}
+		defer stAdmin.Close()
+	}
 	var jsonCache *memory.Storage
 	if c.Backend == "json" {
 		dir, err := os.MkdirTemp("", "c04json")
@@ -206,6 +228,14 @@ func runCell(c Cell) (outcome, error) {
 		return out, err
 	}
 	defer srv.Close()
+	admin := srv // the node through which the mapping's state is changed
+	if stAdmin != nil {
+		admin, err = miniserver.New(miniserver.Options{Storage: stAdmin, NodeID: "node-admin", NoSecurityGate: true})
+		if err != nil {
+			return out, err
+		}
+		defer admin.Close()
+	}
 	type cred struct {
 		id     int64
 		secret string
@@ -297,8 +327,14 @@ func runCell(c Cell) (outcome, error) {
 	// ---- mapping state --------------------------------------------------------------
 	// (the mapping record is also rewritten by the server's own usage/traffic bookkeeping, so the
 	// change is re-applied until a read confirms it)
+	if admin != srv {
+		// the node under test has the mapping "in hand" (as after an earlier tunnel open) before the other node changes it
+		if _, err := srv.Cloud.GetPortMapping(mp.ID); err != nil {
+			return out, fmt.Errorf("setup: node under test cannot read the mapping: %w", err)
+		}
+	}
 	for attempt := 0; ; attempt++ {
-		cur, gerr := srv.Cloud.GetPortMapping(mp.ID)
+		cur, gerr := admin.Cloud.GetPortMapping(mp.ID)
 		if gerr != nil {
 			if c.MState == "missing" {
 				break // already gone
@@ -310,22 +346,22 @@ func runCell(c Cell) (outcome, error) {
 			cur.IsRevoked = true
 			now := time.Now()
 			cur.RevokedAt = &now
-			err = srv.Cloud.UpdatePortMapping(cur)
+			err = admin.Cloud.UpdatePortMapping(cur)
 		case "expired":
 			past := time.Now().Add(-time.Hour)
 			cur.ExpiresAt = &past
-			err = srv.Cloud.UpdatePortMapping(cur)
+			err = admin.Cloud.UpdatePortMapping(cur)
 		case "inactive":
 			cur.Status = models.MappingStatusInactive
-			err = srv.Cloud.UpdatePortMapping(cur)
+			err = admin.Cloud.UpdatePortMapping(cur)
 		case "missing":
-			err = srv.Cloud.DeletePortMapping(mp.ID)
+			err = admin.Cloud.DeletePortMapping(mp.ID)
 		}
 		if err != nil {
 			return out, fmt.Errorf("mapping state %s: %w", c.MState, err)
 		}
 		if c.MState == "missing" {
-			if _, gerr := srv.Cloud.GetPortMapping(mp.ID); gerr != nil {
+			if _, gerr := admin.Cloud.GetPortMapping(mp.ID); gerr != nil {
 				break
 			}
 			if attempt >= 10 {
@@ -333,7 +369,7 @@ func runCell(c Cell) (outcome, error) {
 			}
 		} else {
 			time.Sleep(time.Millisecond)
-			chk, gerr := srv.Cloud.GetPortMapping(mp.ID)
+			chk, gerr := admin.Cloud.GetPortMapping(mp.ID)
 			if gerr != nil {
 				return out, gerr
 			}
@@ -581,7 +617,7 @@ func TestMatrix(t *testing.T) {
 							if be == "redis" && (ts == "none" || ts == "served") {
 								continue // the backend matters where records travel through the store
 							}
-							if be == "json" && ts != "none" && ts != "waiting" {
+							if (be == "json" || be == "two-node") && ts != "none" && ts != "waiting" {
 								continue
 							}
 							i++
